@@ -376,3 +376,43 @@ def gen_message(rng, edition=None, compressed=None, nsub=None, sec2='random', on
         return dict(json=sections_json(edition, ids, values, nsub, compressed, sec2), ids=ids, values=values, infos=infos,
                     edition=edition, compressed=compressed, nsub=nsub, sec2=sec2)
     raise RuntimeError('generator could not build a conforming message')
+
+
+class ForcedIO(GenIO):
+    """GenIO whose structural choices (replication factors, bitmap bits) are given"""
+
+    def __init__(self, rng, nsub, compressed, factors=(), bits=()):
+        GenIO.__init__(self, rng, nsub, compressed)
+        self.f_iter = iter(factors)
+        self.b_iter = iter(bits)
+
+    def structural(self, eid, nbits):
+        if eid == 31031:
+            return [next(self.b_iter)] * self.nsub
+        if eid in (31000, 31001, 31002):
+            return [next(self.f_iter)] * self.nsub
+        return GenIO.structural(self, eid, nbits)
+
+
+def forced_message(rng, ids, per_subset, compressed=False, edition=4):
+    """per_subset: list of (factors, bits) per subset (one entry, shared, when compressed) -> message dict or None"""
+    tabs = R.load_tables(VERSION)
+    tree = R.build_tree(ids, tabs)
+    try:
+        if compressed:
+            factors, bits = per_subset[0]
+            nsub = len(per_subset)
+            io = ForcedIO(rng, nsub, True, factors, bits)
+            R.Walker(tabs, io).walk(tree)
+            values = io.values
+        else:
+            values = []
+            for factors, bits in per_subset:
+                io = ForcedIO(rng, 1, False, factors, bits)
+                R.Walker(tabs, io).walk(tree)
+                values.append(io.values[0])
+            nsub = len(per_subset)
+    except (R.RefError, StopIteration):
+        return None
+    return dict(json=sections_json(edition, ids, values, nsub, compressed), ids=list(ids), values=values, edition=edition,
+                compressed=compressed, nsub=nsub, sec2=None)
